@@ -27,7 +27,7 @@ PROPERTIES = {
         assumptions=["bytes on the wire for multipart are httpx's", "interleavings inside httpx are outside this family"],
     ),
     "C06": dict(
-        modules=["contracts.c06_input_types", "contracts.c06_defaults", "contracts.c18_names", "contracts.c09_pruning"],
+        modules=["contracts.c06_input_types", "contracts.c06_defaults", "contracts.c18_names", "contracts.c09_pruning", "contracts.c04_modules"],
         bounded=[_bounded.lazy("contracts.c09_pruning", "bounded_pruning"), _bounded.lazy("contracts.e2e_variables", "bounded_variables")],
         explanation="input type translator and default-literal translator against the image/coercion spec functions, by structural induction",
         assumptions=["acceptance/refusal of concrete values by the emitted annotations is pydantic's (assumed contract)"],
@@ -109,7 +109,7 @@ PROPERTIES = {
     ),
     "C15": dict(
         modules=["contracts.c15_plugins"],
-        bounded=[_bounded.lazy("contracts.e2e_plugins", "bounded_plugins")],
+        bounded=[_bounded.lazy("contracts.c15_plugins", "bounded_hook_order"), _bounded.lazy("contracts.e2e_plugins", "bounded_plugins")],
         explanation="plugin manager fold, hook forwarding, identity of the base hooks, NoReimports; plugged packages by an end-to-end bounded stand-in",
         assumptions=["equivalence of whole plugged and unplugged packages on scripted responses is sampled, not proved"],
     ),
